@@ -100,7 +100,9 @@ VerifyObl(e) == <<
 RLQ(e) ==
   LET k == e.cls.kind
       h == HonestRL("registered")
-  IN CASE k \in {"Id", "ResealedHonest"} -> h
+  IN CASE k \in {"Id", "ResealedHonest", "ReplaySame"} -> h
+       [] k = "ReplayEncOtherKey" -> [h EXCEPT !.aadBound = FALSE]      \* sealed for another request key
+       [] k = "ReplayEncFlipped" -> [h EXCEPT !.sealedToMe = FALSE]
        [] k = "Flip" -> RLFlip(h, e.cls.f)
        [] k = "Unregistered" -> [h EXCEPT !.origin = "other"]
        [] k = "ForeignIssuer" -> [h EXCEPT !.sealedToMe = FALSE]
@@ -131,6 +133,12 @@ DetObl(e) == <<
   <<"element-is-function-of-its-own-blind", \A i \in 1..Len(e.elems) : \A p \in elemTab :
         (p[1] = <<e.t, e.key, e.elems[i][1], e.elems[i][2]>>) <=> (p[2] = e.elems[i][3])>> >>
 
+\* the same argument sets evaluated by many goroutines at once (one shared key object): still one request, one token
+StressObl(e) == <<
+  <<"det-run-ok", e.errors = 0>>,
+  <<"create-is-pure", e.distinct_req = 1>>,
+  <<"token-ignores-blind", e.distinct_tok = 1>> >>
+
 VectorObl(e) == <<
   <<"vector-request-bytes", e.req_eq>>,
   <<"vector-token-bytes", e.tok_eq>>,
@@ -142,6 +150,7 @@ Obl(e) ==
     [] e.op = "RLEval" -> RLObl(e)
     [] e.op = "Det" -> DetObl(e)
     [] e.op = "DetNew" -> <<>>
+    [] e.op = "DetStress" -> StressObl(e)
     [] e.op = "Vector" -> VectorObl(e)
     [] OTHER -> << <<"unknown-event", FALSE>> >>
 
